@@ -65,6 +65,7 @@ def check(ctx: Ctx) -> None:
     bs_common.normal_functions(ctx)
     bs_common.batch_consistency(ctx, grid, greeks=("price",))
     bs_common.broadcasting(ctx, "price")
+    bs_common.python_strike_on_lattice(ctx, grid, greeks=("price",))
     bs_common.modules_follow_the_derivative(ctx)
     missing = [k for k in ("parity", "binary_complement", "greek_parity", "call_bounds", "put_bounds", "unit_interval", "increasing_in_spot", "convex_in_spot",
                            "nondecreasing_in_volatility", "nondecreasing_in_time", "lookback_ge_european", "lookback_ge_locked_in", "american_ge_european_binary",
